@@ -3,7 +3,8 @@ replay files, evidence files."""
 import json, os, re, sys, time, hashlib
 
 VERIF = os.path.dirname(os.path.dirname(os.path.abspath(__file__)))
-KF_PATH = os.path.join(VERIF, "known_findings.json")
+# VERIF_KF_PATH: triage aid only (run with a reduced list to see what a finding still covers)
+KF_PATH = os.environ.get("VERIF_KF_PATH") or os.path.join(VERIF, "known_findings.json")
 # VERIF_EVIDENCE_DIR: used only when a check is pointed at a scratch tree (seeded-change runs) so that the
 # evidence of /repo is not overwritten
 EVID_DIR = os.environ.get("VERIF_EVIDENCE_DIR") or os.path.join(VERIF, "evidence")
